@@ -12,7 +12,7 @@ def run(rep):
     fw.standin(rep, 'difftest.py', ['run', 'F4', rep.seed + 13, 1200 if q else 20000],
                'facts asserted under binding histories and used several times vs reference (copy semantics)',
                'random F4 cases incl. non-ground facts used twice and variables bound after the assert')
-    fw.standin(rep, 's_dbx.py', ['run', rep.seed, 3000 if q else 12000],
+    fw.standin(rep, 's_dbx.py', ['run', rep.seed, 6000 if q else 24000],
                'systematic small-scope database histories: repeated-variable and all-unbound patterns, non-ground facts, retract resumed after other operations',
                'e/2 over {a,b}: 5 databases x 7 patterns x 26 inner operations + random histories')
     fw.standin(rep, 's_share.py', ['run', rep.seed, 437],
